@@ -35,7 +35,7 @@ AddOffsLong == {<<20, 0>>, <<40000, 0>>, <<50000, 0>>, <<70000, 0>>, <<140000, 0
 RunOffsLong == {<<10, 0>>, <<33000, 0>>, <<45000, 0>>, <<100000, 0>>}
 \* Min timer pulled in to an instant between its queued 75% hop and its expiry, then runs inside that window
 AddOffsMinUpd == {<<60, 0>>, <<52, 0>>, <<47, 0>>}
-RunOffsMinUpd == {<<50, 0>>, <<3, 0>>}
+RunOffsMinUpd == {<<50, 0>>, <<3, 0>>, <<58, 0>>}
 \* fixed timers given the identical instant (well inside the 32767 s range) after earlier ones have fired
 AddOffsSame == {<<3000, 0>>}
 RunOffsSame == {<<3001, 0>>}
